@@ -196,6 +196,60 @@ func runC14(w *World) {
 			w.stat("probe.follower_agrees_after_expiry", 1)
 		}
 	}
+	// in half of those runs the follower is then restarted (it boots as a follower), promoted with
+	// FOLLOW no one and written to: as a leader it has to expire what it holds like any other
+	if !w.failed() && F != nil && w.knob("promote", 2) == 1 {
+		F.crash()
+		fi := F.start()
+		if !fi.ready() {
+			w.harnessErr("follower did not restart")
+			return
+		}
+		w.Drain(10*time.Second, func() bool { return fi.srv.caughtUp() && fi.lock.writer == nil })
+		pr := w.addActor(F, "127.0.0.1:50077", []Cmd{
+			{Args: []string{"FOLLOW", "no", "one"}},
+			{Args: []string{"SET", "k9", "x", "EX", "0.5", "POINT", "1", "1"}},
+			{Args: []string{"SET", "k9", "y", "POINT", "2", "2"}},
+			{Args: []string{"EXPIRE", "k9", "y", "0.3"}},
+			{Args: []string{"SETCHAN", "chp", "EX", "0.4", "NEARBY", "k9", "FENCE", "POINT", "1", "1", "1000"}},
+		})
+		w.Drain(20*time.Second, pr.done)
+		okAll := pr.done()
+		for i, op := range pr.ops {
+			if r := op.Reply.String(); op.Return < 0 || (i < 3 && r != "+OK") || (i >= 3 && r != ":1") {
+				okAll = false
+			}
+		}
+		if !okAll {
+			if !w.failed() {
+				w.stat("probe.promotion_did_not_complete", 1)
+			}
+		} else {
+			w.Sleep(500*time.Millisecond + expiryBound + 300*time.Millisecond)
+			q := w.addActor(F, "127.0.0.1:50078", []Cmd{
+				{Args: []string{"EXISTS", "k9", "x"}},
+				{Args: []string{"EXISTS", "k9", "y"}},
+				{Args: []string{"CHANS", "chp"}},
+			})
+			w.Drain(10*time.Second, q.done)
+			if q.done() && !w.failed() {
+				for i, op := range q.ops {
+					gone := op.Reply.String() == ":0" || (op.Reply.isErr() && strings.Contains(op.Reply.String(), "not found"))
+					if i == 2 {
+						gone = op.Reply.T == '*' && len(op.Reply.A) == 0
+					}
+					if !gone {
+						w.violate("C14/promoted", "a server restarted as a follower and promoted with FOLLOW no one: %v past its deadline [%s] still answers %s",
+							expiryBound+300*time.Millisecond, op.Cmd.String(), clipStr(op.Reply.String(), 120))
+						break
+					}
+				}
+				if !w.failed() {
+					w.stat("probe.promoted_follower_expires", 1)
+				}
+			}
+		}
+	}
 	// every logged expiry of a geometry must have reached the live fence as 'del'
 	nexp := 0
 	if !w.failed() {
